@@ -1,4 +1,5 @@
 """C16 — hydroelastic forces: action-reaction, symmetry, frames (structural clauses)."""
+from . import scopes
 from ..core.report import DOMAIN_D
 from ..rules import eager, hydro, frame
 from .common import e1, e2
@@ -7,6 +8,7 @@ HY = "distance3d.hydroelastic_contact."
 
 
 def run(idx, rep, tier):
+    rep.set_scope(scopes.scope(idx, "C16"))
     rep.explanation = (
         "R-REACTION: the force part of wrench12 is the syntactic negation of wrench21's, torques use each body's own centre "
         "of mass with the matching sign, and the (wrench12, wrench21) order is preserved through _transform_wrenches, "
@@ -23,5 +25,5 @@ def run(idx, rep, tier):
     hydro.r_sharedpose(idx, rep)
     HYM = {m.name for m in idx.lib_modules() if "hydroelastic" in m.name} | {"distance3d.utils"}
     frame.r_frame(idx, rep, e2(idx), modules=HYM, floor=20)
-    mods = None if tier == "thorough" else {HY + "_interface", HY + "_forces", HY + "_contact_surface", HY + "_rigid_body", HY + "_broad_phase"}
+    mods = None        # the property scope (sa/props/scopes.py) selects the functions
     eager.r_attr(idx, rep, it, modules=mods, floor=10)
